@@ -151,6 +151,65 @@ def parse_line(o):
     return r
 
 
+def strip_x(o):
+    """The line without the per-op last-blob / live-state fields (the model driver does not print them)."""
+    if not o or "x=" not in o:
+        return o
+    return " ".join(t for t in o.split(" ") if t.split("=", 1)[0] not in ("sopsx", "opsx", "topsx"))
+
+
+def parse_live(l):
+    """live_state() of the C driver -> (serialisable, abstract state) or None without a usable sm_state."""
+    if l == "n":
+        return None
+    fl, sent, handled, sid, sq, mq = l.split("_")
+    unsent = [] if sq == "-" else [untext(t) for t in sq.split(".")]
+    unacked = [] if mq == "-" else [(int(e.split(":")[0]), untext(e.split(":")[1])) for e in mq.split(".")]
+    return (fl == "111", (int(sent), int(handled), untext(sid), unsent, unacked))
+
+
+def describe(st):
+    return "sent=%d handled=%d id=%s unsent=[%s] unacked=[%s]" % (
+        st[0], st[1], (st[2] or b"").hex() or "-", ",".join((t or b"").hex() or "z" for t in st[3]),
+        ",".join("%d:%s" % (h, (t or b"").hex() or "z") for h, t in st[4]))
+
+
+def stale_blobs(opnames, xfield, last):
+    """The application persists every blob the SM callback hands it.  After every operation the last one must
+    still describe the live connection (id, counters, both queues): whenever that content changes a fresh blob
+    has to be handed over.  `last` = the blob the application holds before the first operation (None: none yet).
+    Returns a list of reasons."""
+    if xfield in (None, "-"):
+        return []
+    live = None
+    for k, entry in enumerate(xfield.split(",")):
+        b, _, l = entry.partition("|")
+        if b == "null":
+            last = "null"
+        elif b != "=":
+            last = b"" if b == "z" else bytes.fromhex(b)
+        if l != "=":
+            live = parse_live(l)
+        if live is None or last is None:
+            continue
+        ser, st = live
+        op = opnames[k] if k < len(opnames) else "?"
+        if last == "null":
+            if ser:
+                return ["last blob is stale: the callback last handed NULL, the connection is resumable with %s after op #%d %s"
+                        % (describe(st), k + 1, op[:40])]
+            continue
+        if not ser:
+            continue
+        got = parse_blob(last)
+        if got is None:
+            return ["the blob handed to the callback during/before op #%d %s is not a well-formed serialisation" % (k + 1, op[:40])]
+        if got != st:
+            return ["last blob is stale: still holds %s after op #%d %s, the live connection holds %s"
+                    % (describe(got), k + 1, op[:40], describe(st))]
+    return []
+
+
 def abnormal(o):
     return o is None or o.startswith("CRASH") or o.startswith("ABNORMAL") or o == ""
 
@@ -172,7 +231,22 @@ def oracle_(case, out, baseline):
         bad.append("release: rel=%s leak=%s" % (r.get("rel"), r.get("leak")))
     rc = int(r["rc"])
     toks = case.split(" ")
-    ops = " ".join(toks[toks.index("/") + 1:])
+    slash = toks.index("/")
+    ops = " ".join(toks[slash + 1:])
+    rops = toks[slash + 1:]
+    if r["kind"] == "S":
+        bad += stale_blobs(toks[4:slash], r.get("sopsx"), None)
+    if rc == 0:
+        # the restored connection's application holds the blob it restored from
+        held = None
+        if r["kind"] == "S" and r.get("blob") not in (None, "null"):
+            held = bytes.fromhex(r["blob"]) if r["blob"] != "-" else b""
+        elif r["kind"] == "B":
+            held = bytes.fromhex(toks[1]) if toks[1] != "-" else b""
+        bad += ["restored connection: " + w for w in stale_blobs(rops, r.get("opsx"), held)]
+        bad += ["native twin: " + w for w in stale_blobs(rops, r.get("topsx"), None)]
+    else:
+        bad += ["after the refusal: " + w for w in stale_blobs(rops, r.get("opsx"), None)]
     if r["kind"] == "S":
         src = parse_dump(r["src"])
         want = abstract(src)
@@ -507,11 +581,11 @@ def evaluate(chk, stream, cases, kinds, impl, model, baseline):
             chk.fail(case, why, stream=stream, extra={"impl": (impl[i] or "")[:2000]})
         if model is not None:
             chk.traces_validated += 1
-            a, b = impl[i], model[i]
+            a, b = strip_x(impl[i]), model[i]
             if not (a == b or (abnormal(a) and abnormal(b))):
                 chk.disagree(stream, case, (a or "")[:1500], (b or "")[:1500])
         if i % 1499 == 0 and len(case) < 600:
-            chk.sample({"input": case, "impl": (impl[i] or "")[:600], "model_agrees": None if model is None else model[i] == impl[i]})
+            chk.sample({"input": case, "impl": (impl[i] or "")[:600], "model_agrees": None if model is None else model[i] == strip_x(impl[i])})
 
 
 def ops_of(case):
@@ -535,7 +609,9 @@ def run(chk):
                 "truncation, extensions, every single edit of each tag / length / count / value field (0, +-1, 0x7fffffff, "
                 "0x80000000, 0xffffffff, remaining length), version edits, NUL in the id, random bytes, random bytes over the "
                 "tag alphabet behind a valid version.  Non-trivial = scenario that reaches past restore's length and version "
-                "pre-checks.")
+                "pre-checks.  Every operation of every connection (source, restored, native twin) is additionally followed by "
+                "the blob the SM callback received during it and the live content of the connection; the last blob held must "
+                "decode (strict Python parser) to that content.")
     chk.assumptions = [
         "allocation never fails (XMPP_EMEM paths are not modelled or exercised)",
         "fresh heap memory reads as zero in the model (sm_h of an element created by _send_raw is uninitialised in C and overwritten by the send loop before any read); the C driver's allocator fills with 0xAA",
